@@ -69,6 +69,24 @@ def check_config(cfg, w, rep):
                           "public listing `%s` does not return the index listing as it is (%s): entries could be dropped, changed or added "
                           "relative to what lookups find" % (short(lf.path), term_str(rt)[:140]), loc=lf.body.loc(), config=cfg, rule="a-same-stream")
     rep.floor("listing_wrappers", n_wr, 1, cfg)
+    # (e) "agreeing with lookup": listing and lookups read buckets through readers that take every valid record (C06) and the
+    #      lookups select the last valid record of the key (C05 b) — re-checked here, because a lookup that sees fewer records
+    #      than the listing (or selects differently) disagrees with it
+    from ..framework import Report
+    from . import c05, c06
+    sub = Report("C06")
+    for p_ in R.bucket_readers:
+        c06.check_reader(cfg, w, sub, prog.fns[p_])
+    sub2 = Report("C05")
+    for p_ in sorted(find_fns(w)):
+        c05.check_find(cfg, w, sub2, prog.fns[p_])
+    for tag, sb in (("e-reader", sub), ("e-lookup", sub2)):
+        for (c_, rule, k, desc, ok) in sb.obligations:
+            if ok:
+                rep.ob(cfg, "%s/%s" % (tag, rule), k, desc)
+        for k, v in sb.violations.items():
+            rep.violation("%s:%s" % (tag, k), "listing and lookup could disagree — " + v.msg, loc=v.loc, config=cfg,
+                          rule="%s/%s" % (tag, v.rule or ""), witness=v.witness)
     # (c) de-duplication key is the entry key only
     for rt in sorted(R.record_types):
         check_eq_hash(cfg, w, rep, rt)
